@@ -10,3 +10,5 @@ CONSTANTS
   KRit = 0
   Variant = "repaired"
 CHECK_DEADLOCK FALSE
+INVARIANT GeoShape
+INVARIANT NoDivergedGeometry
